@@ -662,7 +662,7 @@ class Pair:
         hy = s.hyps + [z3.Not(reg) for _, _, reg in regs]
         on2 = oname + ('.outside-known' if regs else ''); b2 = s.binfo + ' ' + what + ('; excluding known-finding regions ' + ','.join(k for k, _, _ in regs) if regs else '')
         return s.decide(on2, goal, hy, kind, b2, rp, timeout, mandatory, solver, (x, y), bool(regs))
-    def decide(s, name, goal, hy, kind, b2, rp, timeout, mandatory, solver, pair, has_regs, final_goal=None):
+    def decide(s, name, goal, hy, kind, b2, rp, timeout, mandatory, solver, pair, has_regs, final_goal=None, cong_budget=None):
         """cheapest first: identical terms, propositional consequence of the hypotheses, a short direct query, structural congruence, the full query (a counterexample is replayed natively)"""
         S = s.S
         def ok(solver_, dt=0.0): S.rec(name=name, kind=kind, functions=s.fnlist, bounds=b2, solver=solver_, result='unsat', time_s=round(dt, 3), status='discharged', mandatory=mandatory); return True
@@ -671,7 +671,7 @@ class Pair:
         if solver == 'z3':
             def cong():
                 if pair is None: return False
-                cg = Cong(S, hy, per_query=S.cap(20, 40), budget=max(timeout, S.cap(240, 600)))
+                cg = Cong(S, hy, per_query=S.cap(20, 40), budget=cong_budget or max(timeout, S.cap(150, 450)))
                 return cg.eq(*pair) and ok('z3 (structural congruence: %d lemma(s)%s, common subterms generalised)' % (cg.lemmas, ' + %d cached' % cg.cached if cg.cached else ''), cg.time)
             if getattr(s, 'prefer_cong', False) and cong(): return True          # an earlier element of this wrapper needed the congruence route: try it first
             r, m, dt, used = S.query(list(hy) + [z3.Not(goal)], 3, 'z3', s.allvars)
@@ -800,7 +800,7 @@ def check_padding(S, pr):
         if not (lid & set(subterms(y))):
             S.rec(name=name, kind='padding', functions=pr.fnlist, bounds=b2, solver='free-variable check on the simplified term (the lane-3 inputs do not occur)', result='unsat', time_s=0.0, status='discharged', mandatory=True); continue
         y0 = canon(z3.simplify(z3.substitute(y, *zero)))
-        pr.decide(name, y == y0, pr.hyps, 'padding', b2, replayer(oi, i), S.cap(60, 180), True, 'z3', (y, y0), False)
+        pr.decide(name, y == y0, pr.hyps, 'padding', b2, replayer(oi, i), S.cap(60, 180), True, 'z3', (y, y0), False, cong_budget=S.cap(40, 120))
 
 def check_decisions(S, pr, rest):
     """the IEEE comparison atoms the SIMD result depends on must each be equivalent (bit-precisely) to one the pure result depends on"""
@@ -820,7 +820,7 @@ def check_decisions(S, pr, rest):
         pr.probe(on, regs, [a != bt, z3.Not(same_out)], None, None, S.cap(40, 60))
         hy = pr.hyps + [z3.Not(reg) for _, _, reg in regs]
         on2 = on + ('.outside-known' if regs else ''); b2 = pr.binfo + ' [branch decision: %s]' % bt.decl().name() + ('; excluding known-finding regions ' + ','.join(k for k, _, _ in regs) if regs else '')
-        pr.decide(on2, a == bt, hy, 'decision', b2, rp, S.cap(60, 180), True, 'z3', (a, bt), bool(regs), final_goal=z3.Or(a == bt, same_out))
+        pr.decide(on2, a == bt, hy, 'decision', b2, rp, S.cap(60, 180), True, 'z3', (a, bt), bool(regs), final_goal=z3.Or(a == bt, same_out), cong_budget=S.cap(60, 180))
     if n == 0:
         S.rec(name=pr.nm + '.decision', kind='decision', functions=pr.fnlist, bounds=pr.binfo + ' [branch decisions]', solver='identical terms (commutative operands ordered)', result='unsat', time_s=0.0, status='discharged', mandatory=True,
               note='%d comparison atoms, each the same IEEE term in both builds' % len(B))
